@@ -7,13 +7,21 @@ VARIABLE tid
 Cases == JsonDeserialize("cases.json")
 Init == tid \in 1..Len(Cases)
 Next == UNCHANGED tid
+\* Clauses that restate the property (C02: an exhausted budget is reported; C19: every nonterminal is solved, after those
+\* it depends on) GATE.  Clauses about the shape of the event log itself (a counter that skips, an event outside its
+\* bracket, a component that is a union of SCCs, a log cut short) only say that the code no longer follows this
+\* descriptive machine -- e.g. after a refactoring of the loops that moved or dropped a hook -- and are reported as drift.
+Normative == {"EveryNonterminalSolvedOnce", "DependenciesSolvedFirst", "CallerSeesTheWarning"}
 Verdict(c) ==
   LET r == SvRun(c.ag, c.trace)
       warnedInLog == \E i \in DOMAIN c.trace : (c.trace[i][1] = "fp_end" /\ c.trace[i][3]) \/ (c.trace[i][1] = "nt_end" /\ c.trace[i][2])
       complete == Len(c.trace) > 0 /\ c.trace[Len(c.trace)][1] = "end"
-  IN IF ~r.ok THEN [v |-> r.clause, pos |-> r.pos, drift |-> r.s.drift]
-     ELSE IF c.out = "ok" /\ ~complete THEN [v |-> "TraceEndsWithEnd", pos |-> Len(c.trace), drift |-> r.s.drift]
-     ELSE IF c.out = "ok" /\ c.warned # warnedInLog THEN [v |-> "CallerSeesTheWarning", pos |-> Len(c.trace), drift |-> r.s.drift]
-     ELSE [v |-> "ok", pos |-> Len(c.trace), drift |-> r.s.drift]
-Judge == LET c == Cases[tid] r == Verdict(c) IN PrintT(ToJson([gtid |-> c.gtid, v |-> r.v, tags |-> c.tag, pos |-> r.pos, drift |-> r.drift]))
+      raw == IF ~r.ok THEN [v |-> r.clause, pos |-> r.pos]
+             ELSE IF c.out = "ok" /\ ~complete THEN [v |-> "TraceEndsWithEnd", pos |-> Len(c.trace)]
+             \* the log says an iterative method ran out of budget, yet the caller saw no warning (a spurious warning is allowed)
+             ELSE IF c.out = "ok" /\ warnedInLog /\ ~c.warned THEN [v |-> "CallerSeesTheWarning", pos |-> Len(c.trace)]
+             ELSE [v |-> "ok", pos |-> Len(c.trace)]
+  IN IF raw.v = "ok" \/ raw.v \in Normative THEN [v |-> raw.v, pos |-> raw.pos, drift |-> r.s.drift, logdrift |-> "none"]
+     ELSE [v |-> "ok", pos |-> raw.pos, drift |-> r.s.drift, logdrift |-> raw.v]
+Judge == LET c == Cases[tid] r == Verdict(c) IN PrintT(ToJson([gtid |-> c.gtid, v |-> r.v, tags |-> c.tag, pos |-> r.pos, drift |-> r.drift, logdrift |-> r.logdrift]))
 =============================================================================
